@@ -298,10 +298,13 @@ def t_dependencies(d, k):
     val = {"a": ["b", "c"], "d": S(0), "h": ["b", "zz"]}
     if d == "draft3":
         val["e"] = "b"
+        val["e2"] = "zz"        # a second name-form entry: a satisfied entry before it ends nothing
     if d in ("draft6", "draft7"):
         val["f"] = False
         val["g"] = []
-    for members in ((), ("a",), ("a", "b"), ("a", "b", "c"), ("d",), ("d", "a", "c"), ("e",), ("e", "b"), ("f",), ("g",), ("b", "c"), ("a", "h"), ("h", "a", "c"), ("h", "b")):
+    for members in ((), ("a",), ("a", "b"), ("a", "b", "c"), ("d",), ("d", "a", "c"), ("e",), ("e", "b"), ("f",), ("g",), ("b", "c"), ("a", "h"), ("h", "a", "c"), ("h", "b"),
+                    # an entry that is satisfied, then one that is not (whatever their forms)
+                    ("a", "b", "c", "h"), ("e", "b", "e2"), ("a", "b", "c", "e2"), ("e", "b", "h")):
         inst = {m: X(i) for i, m in enumerate(members)}
         for o in oracles([(inst, S(0))] if "d" in members else []):
             exp = []
